@@ -76,6 +76,7 @@ type FnCtx struct {
 	anchorArgs  []Val
 	anchorRes   *Val
 	anchorLog   []anchorKey
+	bytesOfBases []string // scratch: bases named by "bytesof" items of the modifies clause being applied
 	anchorsHit  map[*AnchorClause]bool
 	anchorsSeen map[string]bool
 	probe       bool
